@@ -286,9 +286,80 @@ def fingerprint(clause, config, flavour, ctx, model):
     return "C01/%s" % clause
 
 
+def check_nested(res):
+    """A test that runs another TestCase against the same result object - from its body, its
+    tearDown or a cleanup (a test of a test framework does): each of the two tests still gets
+    startTest, exactly one outcome and stopTest of its own, the inner bracket inside the outer."""
+    import testtools
+
+    for flavour in FLAVOURS:
+        if flavour == "none":
+            continue
+        for site in ("test", "tearDown", "cleanup"):
+            for inner_kind in ("pass", "fail"):
+                for outer_kind in ("pass", "fail", "error"):
+                    result, log = make_result(flavour)
+
+                    class Inner(testtools.TestCase):
+                        def test_inner(self):
+                            if inner_kind == "fail":
+                                self.fail("inner")
+
+                        def id(self):
+                            return "nested.inner"
+
+                    def nested():
+                        Inner("test_inner").run(result)
+
+                    class Outer(testtools.TestCase):
+                        def test_outer(self):
+                            if site == "cleanup":
+                                self.addCleanup(nested)
+                            if site == "test":
+                                nested()
+                            if outer_kind == "fail":
+                                self.fail("outer")
+                            if outer_kind == "error":
+                                raise pg.VerifError("outer")
+
+                        def tearDown(self):
+                            if site == "tearDown":
+                                nested()
+                            super().tearDown()
+
+                        def id(self):
+                            return "nested.outer"
+
+                    try:
+                        Outer("test_outer").run(result)
+                        how = "returned"
+                    except BaseException as e:
+                        how = "raised %s" % type(e).__name__
+                    res.evaluations += 1
+                    res.traces_validated += 1
+                    if flavour == "stream":
+                        per = {}
+                        for e in log:
+                            if e[0] == "status" and e[1]["test_status"] is not None:
+                                per.setdefault(e[1]["test_id"], []).append(e[1]["test_status"])
+                        want = {"nested.outer": ["inprogress", {"pass": "success", "fail": "fail", "error": "fail"}[outer_kind]], "nested.inner": ["inprogress", {"pass": "success", "fail": "fail"}[inner_kind]]}
+                        got = per
+                    else:
+                        per = {}
+                        for e in log:
+                            if e[0] in ("startTest", "stopTest") or e[0] in rec.OUTCOMES:
+                                per.setdefault(e[1].id(), []).append(e[0])
+                        want = {"nested.outer": ["startTest", {"pass": "addSuccess", "fail": "addFailure", "error": "addError"}[outer_kind], "stopTest"], "nested.inner": ["startTest", {"pass": "addSuccess", "fail": "addFailure"}[inner_kind], "stopTest"]}
+                        got = per
+                    if got != want or how != "returned":
+                        res.violation("C01/nested-run", "a test whose %s runs another test against the same %s result (inner %s, outer %s): events per test %r (run() %s), expected %r" % (site, flavour, inner_kind, outer_kind, got, how, want), {"nested": True})
+
+
 def run_shard(shard, tier, seed):
     res = ShardResult()
     flavour = shard[0]
+    if shard == (FLAVOURS[0], 0, False, False, None):
+        check_nested(res)
     config = config_of(shard)
     bound = bound_for(tier, shard[1])
 
@@ -366,6 +437,10 @@ def meta(tier):
 def replay(data):
     from vt.explore.chooser import Chooser
 
+    if data.get("nested"):
+        res = ShardResult()
+        check_nested(res)
+        return not res.violations, "\n".join(v["message"] for v in res.violations)
     shard = tuple(data["shard"])
     config = config_of(shard)
     ch = Chooser(data["choices"])
